@@ -3,6 +3,7 @@ module verif
 go 1.23
 
 require (
+	github.com/google/uuid v1.3.0
 	github.com/hprose/hprose-golang/v3 v3.0.0
 	pgregory.net/rapid v1.3.0
 )
@@ -11,7 +12,6 @@ require (
 	github.com/andot/complexconv v1.0.0 // indirect
 	github.com/andybalholm/brotli v1.0.4 // indirect
 	github.com/fasthttp/websocket v1.5.0 // indirect
-	github.com/google/uuid v1.3.0 // indirect
 	github.com/klauspost/compress v1.15.0 // indirect
 	github.com/modern-go/reflect2 v1.0.2 // indirect
 	github.com/orcaman/concurrent-map v1.0.0 // indirect
